@@ -148,7 +148,8 @@ def rule_U2(F, R):
     except Exception as e:
         R.violation("U2", subj, "table-extraction", "cannot extract the path table: %s" % e, where(b))
         return
-    writers = re.compile(r"^storage::StorageTxn::(add_operation|remove_operation|set_task|create_task|delete_task|set_base_version|sync_complete|add_to_working_set|set_working_set_item|clear_working_set|commit)$|apply::apply_op$")
+    import r_sync as _rs0
+    writers = re.compile(r"^storage::StorageTxn::(add_operation|remove_operation|set_task|create_task|delete_task|set_base_version|sync_complete|add_to_working_set|set_working_set_item|clear_working_set|commit)$|^" + re.escape(_rs0.apply_op_fn(F) or "taskdb::apply::apply_op") + "$")
     n_early = 0
     undo_param = ("P", "undo_ops")
     for p in paths:
@@ -205,7 +206,7 @@ def rule_U2(F, R):
         R.ok("U2", "tail-match test: unsynced[len-len(undo)..] == undo guards the reversal", where(b))
     # every path that removes an operation or commits carries the successful tail-match
     for p in paths:
-        evw = [e for e in p.events if any(n.endswith("::remove_operation") or n.endswith("StorageTxn::commit") or n.endswith("apply::apply_op") for n in e["names"])]
+        evw = [e for e in p.events if any(n.endswith("::remove_operation") or n.endswith("StorageTxn::commit") for n in e["names"]) or _rs0.apply_op_fn(F) in e["names"]]
         if not evw:
             continue
         okp = any(a[0] == "call" and a[1].endswith("PartialEq::eq") and o is True and _has(a[2], lambda v: v[0] == "C" and v[2].endswith("Index::index")) for (a, o, _bb) in p.atoms) \
@@ -252,11 +253,12 @@ def rule_U2(F, R):
                 item = a[1]
         revev = [e for e in p.events if rev in e["names"]]
         rmev = [e for e in p.events if any(n_.endswith("remove_operation") for n_ in e["names"])]
-        apev = [e for e in p.events if any(n_.endswith("apply::apply_op") for n_ in e["names"])]
+        import r_sync as _rs
+        apev = [e for e in p.events if _rs.apply_op_fn(F) in e["names"]]
         inner_some = [1 for (a, o, _bb) in p.atoms if a[0] == "variant" and o == "Some" and a[1][0] == "C" and a[1][2].endswith("Iterator::next") and a[1] != item]
         if end_is_outer(p, lp[0]):
             n += 1
-            desc = show_path(p, interesting=lambda e: rev in e["names"] or any(x.endswith("remove_operation") or x.endswith("apply_op") for x in e["names"]))
+            desc = show_path(p, interesting=lambda e: rev in e["names"] or _rs.apply_op_fn(F) in e["names"] or any(x.endswith("remove_operation") for x in e["names"]))
             if not revev or not _has(revev[0]["args"][0], lambda v: v == ("F", item, "Some", 0)):
                 R.violation("U2", subj, "iteration-without-reversal", "an iteration does not compute the reversal of its operation: %s" % desc[:300], where(b, p.blocks[-1]))
             elif not rmev or not _has(rmev[0]["args"][-1], lambda v: v == ("F", item, "Some", 0)):
@@ -265,7 +267,7 @@ def rule_U2(F, R):
                 R.ok("U2", "iteration: reverse_ops(op) .. remove_operation(op)", where(b, p.blocks[-1]))
         else:
             # inner iteration
-            desc = show_path(p, interesting=lambda e: any(x.endswith("apply_op") for x in e["names"]))
+            desc = show_path(p, interesting=lambda e: _rs.apply_op_fn(F) in e["names"])
             if not apev:
                 R.violation("U2", subj, "reversed-op-not-applied", "a reversed operation is not applied: %s" % desc[:300], where(b, p.blocks[-1]))
             else:
@@ -815,7 +817,9 @@ def rule_L1(F, R):
                 R.ok("L1", "logged value iterates `operations` without reordering/filtering adaptors", where(b, i))
         if commit and not c.dominates(h, commit[0][0]):
             R.violation("L1", subj, "commit-without-logging", "commit is reachable without running the logging loop", where(b, commit[0][0]))
-    ap = calls_matching(c, r"taskdb::apply::apply_operations$")
+    import roles
+    aof = roles.apply_operations_fn(F)
+    ap = calls_matching(c, "^" + re.escape(aof) + "$") if aof else []
     if not ap:
         R.violation("L1", subj, "no-apply", "commit_operations does not apply the operations", where(b))
     else:
@@ -828,9 +832,11 @@ def rule_L1(F, R):
 
 def rule_A1(F, R):
     R.begin("A1", "batch application dispatch (one loop iteration): Create invalidates/flushes the cached entry of that task and calls create_task; Delete calls delete_task and overwrites the cache entry; Update goes through the cache and writes nothing when the task is absent; UndoPoint touches nothing; afterwards every cached task is written back")
-    b = F.real_body("taskdb::apply::apply_operations")
+    import roles
+    aof = roles.apply_operations_fn(F)
+    b = F.real_body(aof) if aof else None
     if b is None:
-        R.missing("A1", "taskdb::apply::apply_operations")
+        R.missing("A1", "the taskdb function that applies a batch of operations (calls StorageTxn::create_task, takes &Operations)")
         return
     c = cfg_of(b)
     fl = flow_of(b)
@@ -909,7 +915,7 @@ def rule_A1(F, R):
         elif kind == "Update":
             seen.add(kind)
             writes = [e for e in st if re.search(r"::(set_task|create_task|delete_task)$", e["callee"])]
-            absent = any(o == "None" for (a, o, _bb) in p.atoms if a[0] == "variant" and a[1][0] == "F" and _has(a[1], lambda v: v[0] == "C" and "get_cache" in v[2]))
+            absent = any(o == "None" for (a, o, _bb) in p.atoms if a[0] == "variant" and a[1][0] == "F" and _has(a[1], lambda v: v[0] == "C" and v[2] in F.bodies))
             if writes:
                 R.violation("A1", subj, "update-writes-directly", "the Update arm writes to storage directly instead of through the cache: %s" % desc, w)
             else:
